@@ -289,8 +289,16 @@ class t2grid(object):
         """Adds a block to the grid"""
         if newblock is None: newblock = t2block()
         if newblock.name in self.block:
-            i = self.blocklist.index(self.block[newblock.name])
+            oldblock = self.block[newblock.name]
+            i = self.blocklist.index(oldblock)
             self.blocklist[i] = newblock
+            if newblock is not oldblock:
+                # the replacement takes over the connections of the block it replaces:
+                for conname in oldblock.connection_name:
+                    con = self.connection[conname]
+                    con.block = [newblock if blk is oldblock else blk for blk in con.block]
+                newblock.connection_name = set(oldblock.connection_name)
+                oldblock.connection_name = set([])
         else: self.blocklist.append(newblock)
         self.block[newblock.name] = newblock
 
